@@ -1,6 +1,6 @@
 SPECIFICATION Spec
 CONSTANTS
-  Part = "strin"
+  Part = "shapes"
   MaxArms = 1
-INVARIANT StrinStrict
+INVARIANT FlattenStrict
 CHECK_DEADLOCK FALSE
